@@ -32,7 +32,7 @@ for n in sorted(os.listdir(os.path.join(ROOT, "seeded"))):
         continue
     t, m = title(d)
     v = m.get("quick_check_verdict", "not run")
-    det += v == "DETECTED"; miss += v.startswith("missed"); other += not (v == "DETECTED" or v.startswith("missed"))
+    det += v.startswith("DETECTED"); miss += v.startswith("missed"); other += not (v.startswith("DETECTED") or v.startswith("missed"))
     sg = "<br>".join("`%s`" % x.replace("|", "\\|") for x in (m.get("quick_check_signatures") or [])[:2])
     rows.append("| %s | %s | %s | %s |" % (n, t, v, sg))
 rows.append("")
